@@ -7,6 +7,7 @@ CONSTANTS
   MaxByte = 67
   MaxMem = 515
   Large = {1000, 1027}
+  Huge = {}
   NRand = 2
   FullRun = 36
 INIT Init
